@@ -1,9 +1,9 @@
 import TF.Model.BField
 /-!
 Model of `x_field_element.rs` over raw Montgomery words: triples `(c0, c1, c2)`.
-Inversion in the Rust code goes through the polynomial extended gcd; the model takes the inverse as the
-specification-level inverse (unique in a field), see `TF/Spec/Field.lean` — the correspondence check compares
-values.  Everything else follows the Rust code operation by operation.
+Inversion in the Rust code goes through the polynomial extended gcd; it is modelled step by step in
+`TF/Model/XFieldInv.lean` (`XF.inverse`, `XF.inverseOrZero`, `XF.div`) on top of the C09 polynomial models.
+Everything follows the Rust code operation by operation.
 -/
 namespace TF.Model.XF
 open TF.Gen TF.Model.BF
